@@ -1,6 +1,7 @@
 package lower
 
 import (
+	"errors"
 	"fmt"
 	"math"
 	"math/bits"
@@ -4922,6 +4923,13 @@ func (l *Lowerer) evalConstantIntExpr(expr parser.Expr) (ir.ScalarKind, int64, e
 }
 
 // evalConstantBinaryExpr evaluates a binary expression of constants at compile time.
+// Division and remainder by zero in a constant integer expression. Callers that treat an
+// evaluation failure as "not a constant" (array sizes) still report these.
+var (
+	errConstDivisionByZero = errors.New("division by zero in constant expression")
+	errConstModuloByZero   = errors.New("modulo by zero in constant expression")
+)
+
 func (l *Lowerer) evalConstantBinaryExpr(e *parser.BinaryExpr) (ir.ScalarKind, int64, error) {
 	leftKind, leftVal, err := l.evalConstantIntExpr(e.Left)
 	if err != nil {
@@ -4945,12 +4953,12 @@ func (l *Lowerer) evalConstantBinaryExpr(e *parser.BinaryExpr) (ir.ScalarKind, i
 		return resultKind, leftVal * rightVal, nil
 	case parser.TokenSlash:
 		if rightVal == 0 {
-			return 0, 0, fmt.Errorf("division by zero in constant expression")
+			return 0, 0, errConstDivisionByZero
 		}
 		return resultKind, leftVal / rightVal, nil
 	case parser.TokenPercent:
 		if rightVal == 0 {
-			return 0, 0, fmt.Errorf("modulo by zero in constant expression")
+			return 0, 0, errConstModuloByZero
 		}
 		return resultKind, leftVal % rightVal, nil
 	case parser.TokenLessLess:
@@ -10279,6 +10287,8 @@ func (l *Lowerer) resolveType(typ parser.Type) (ir.TypeHandle, error) {
 				}
 				constSize := uint32(n)
 				size.Constant = &constSize
+			} else if errors.Is(err, errConstDivisionByZero) || errors.Is(err, errConstModuloByZero) {
+				return 0, fmt.Errorf("array size: %w", err)
 			}
 		}
 		// Compute element stride for SPIR-V ArrayStride decoration.
